@@ -469,10 +469,10 @@ func (this *LedgerStoreImp) verifyHeader(header *types.Header, vbftPeerInfo map[
 		}
 		return vbftPeerInfo, nil
 	} else {
-		// a multi-signature address exists for at most MULTI_SIG_MAX_PUBKEY_SIZE keys; for more,
+		// a bookkeeper address exists for 1..MULTI_SIG_MAX_PUBKEY_SIZE keys only; for any other count
 		// AddressFromBookkeepers yields the empty address, which must not match an empty NextBookkeeper
-		if len(header.Bookkeepers) > constants.MULTI_SIG_MAX_PUBKEY_SIZE {
-			return vbftPeerInfo, fmt.Errorf("too many bookkeepers: %d", len(header.Bookkeepers))
+		if len(header.Bookkeepers) == 0 || len(header.Bookkeepers) > constants.MULTI_SIG_MAX_PUBKEY_SIZE {
+			return vbftPeerInfo, fmt.Errorf("invalid number of bookkeepers: %d", len(header.Bookkeepers))
 		}
 		address, err := types.AddressFromBookkeepers(header.Bookkeepers)
 		if err != nil {
